@@ -227,17 +227,21 @@ ORDER = ["PointCloud", "PolyLine", "SurfaceMesh", "VolumeMesh"]
 
 
 def read_vertices(m):
-    """-> (list of 3-tuples of python floats | None on a malformed vertex, dtype names)"""
+    """-> (list of 3-tuples of python floats | None on a malformed vertex, set of dtype names)"""
     import numpy as np
     out, dts = [], set()
-    for v in m.vertices:
-        a = np.asarray(v)
-        dts.add(a.dtype.name)
+    for v in m.vertices._data:
+        a = v if isinstance(v, np.ndarray) else np.asarray(v)
+        dts.add(a.dtype.char)
         if a.shape != (3,):
             out.append(None)
         else:
-            out.append((float(a[0]), float(a[1]), float(a[2])))
-    return out, dts
+            x, y, z = a.tolist()
+            out.append((float(x), float(y), float(z)))
+    return out, {_DT.get(c, c) for c in dts}
+
+
+_DT = {"d": "float64", "f": "float32", "l": "int64", "q": "int64", "i": "int32"}
 
 
 def read_elements(m):
@@ -651,37 +655,73 @@ class Run:
         return evs
 
     # -- comparing every live object with its model ----------------------------------------------
-    def compare_all(self, st, ev, targets, skip=(), pre=None):
-        """-> True if anything was reported.  targets = indices of the meshes the event is allowed to change"""
-        import numpy as np
+    def diff_vertices(self, st, skip=(), count=True):
+        """-> (vertex mismatches [(mesh, vertex, real, model)], vertex-count mismatches [(mesh, got, want)])"""
         rep = self.rep
-        kind = ev[0]
-        callee = CALLEE[kind]
-        bad = False
-        mism = []                                   # (mesh index, vertex index, real, model)
+        mism, cnt = [], []
         for y, L in enumerate(st.live):
             if y in skip:
                 continue
-            rep.evaluations += 1
             rv, _ = read_vertices(L.real)
             if len(rv) != len(L.V):
-                self.viol(f"C06.{kind}.isolation" if y not in targets else "C06.transform.map", callee,
-                          "mismatch:vertex_count", "producer=" + L.label,
-                          {"event": list(ev), "mesh": y, "got": len(rv), "want": len(L.V)})
-                bad = True
+                cnt.append((y, len(rv), len(L.V)))
                 continue
+            exact, tol = L.exact, L.tol
             for j, (p, q) in enumerate(zip(rv, L.V)):
                 if p is None or q is None:
                     if (p is None) != (q is None):
                         mism.append((y, j, p, q))
                     continue
-                if L.exact:
-                    ok = Fr(p[0]) == q[0] and Fr(p[1]) == q[1] and Fr(p[2]) == q[2]
-                    rep.count("exact_comparisons")
+                if exact:
+                    ok = p[0] == q[0] and p[1] == q[1] and p[2] == q[2]       # float == Fraction is exact
                 else:
-                    ok = close(p[0], q[0], L.tol) and close(p[1], q[1], L.tol) and close(p[2], q[2], L.tol)
+                    ok = close(p[0], q[0], tol) and close(p[1], q[1], tol) and close(p[2], q[2], tol)
                 if not ok:
                     mism.append((y, j, p, q))
+            if count:
+                rep.evaluations += 1
+                if exact:
+                    rep.count("exact_comparisons", len(rv))
+        return mism, cnt
+
+    def intrinsic(self, ev):
+        """Causal test for a wrong vertex: the same event on a replica of the state in which the harness has given
+        every vertex slot its own storage.  Mismatches that survive are wrong whatever the storage layout (the map
+        itself); those that disappear were caused by shared storage.  -> set of (mesh, vertex) | None (= all)"""
+        import numpy as np
+        st2 = self.replay(self.hist[:-1])
+        for L in st2.live:
+            d = L.real.vertices._data
+            for i in range(len(d)):
+                d[i] = np.array(d[i]).view(type(d[i])) if isinstance(d[i], np.ndarray) else d[i]
+        X = st2.live[ev[1]]
+        fn = self._fn(ev[0])
+        a, kw, _ = self._real_args(ev)
+        o = call(fn, X.real, *a, **kw)
+        if not o.ok or any(p is None for p in X.V):
+            return None
+        X.V, exact_op = model_map(ev, X.V)
+        X.exact = bool(X.exact and exact_op and all(small_dyadic(c) for p in X.V for c in p))
+        mism, cnt = self.diff_vertices(st2, count=False)
+        if cnt:
+            return None
+        return {(y, j) for y, j, _, _ in mism}
+
+    def compare_all(self, st, ev, targets, skip=(), pre=None):
+        """-> True if anything was reported.  targets = indices of the meshes the event is allowed to change"""
+        rep = self.rep
+        kind = ev[0]
+        callee = CALLEE[kind]
+        bad = False
+        mism, cnt = self.diff_vertices(st, skip)
+        for y, got, want in cnt:
+            self.viol(f"C06.{kind}.isolation" if y not in targets else "C06.transform.map", callee,
+                      "mismatch:vertex_count", "producer=" + st.live[y].label,
+                      {"event": list(ev), "mesh": y, "got": got, "want": want})
+            bad = True
+        for y, L in enumerate(st.live):
+            if y in skip:
+                continue
             el = read_elements(L.real)
             if el != L.el:
                 self.viol(f"C06.{kind}.elements", callee, "side_effect:elements_changed", "producer=" + L.label,
@@ -706,33 +746,41 @@ class Run:
                 cmis.append(k)
         if not mism and not cmis:
             return bad
-        # ---- classify: is the wrong value explained by storage shared with a vertex of the target?
+        # ---- classify: wrong whatever the storage layout (the map), or caused by storage shared with the target?
         tgt = targets[0] if (targets and kind in TRANSFORMS) else None
         slots = {}
+        keep = ()
         if tgt is not None:
             for i, p in enumerate(pre[tgt]):
                 slots.setdefault(p, []).append(i)
+            keep = self.intrinsic(ev)
+            rep.count("causal_replicas")
         done = set()
         for y, j, p, q in mism:
             L = st.live[y]
-            others = []
-            if tgt is not None and p is not None:
-                others = [i for i in slots.get(pre[y][j], ()) if not (y == tgt and i == j)]
             det = {"event": list(ev), "mesh": y, "mesh_producer": L.label, "vertex": j, "got": p,
                    "want": None if q is None else [float(c) for c in q]}
-            if others:
-                if y == tgt:
-                    sub, icls, vk = blame_within(st, y, others[0], j)
-                else:
-                    sub, icls, vk = blame_cross(st, ("m", tgt), ("m", y))
-                det.update(target=tgt, target_producer=st.live[tgt].label, shares_storage_with_target_vertex=others[0])
-                fp = (sub, PRIMITIVE[kind], vk, icls)
-            elif y in targets and kind in TRANSFORMS:
-                fp = ("C06.transform.map", callee, "mismatch:coordinates", param_class(ev))
-            elif kind in TRANSFORMS:
-                fp = ("C06.transform.isolation", callee, "side_effect:other_mesh_changed", "no_shared_storage")
-            else:
+            if tgt is None:
                 fp = (f"C06.{kind}.isolation", callee, "side_effect:input_changed", "mesh=" + L.mtype)
+            elif keep is None or (y, j) in keep:
+                det["same_result_when_every_vertex_has_its_own_storage"] = True
+                if y == tgt:
+                    fp = ("C06.transform.map", callee, "mismatch:coordinates", param_class(ev))
+                else:
+                    fp = ("C06.transform.isolation", callee, "side_effect:other_mesh_changed", "no_shared_storage")
+            else:
+                others = [i for i in slots.get(pre[y][j], ()) if not (y == tgt and i == j)] if p is not None else []
+                det.update(target=tgt, target_producer=st.live[tgt].label, correct_when_every_vertex_has_its_own_storage=True)
+                if not others:
+                    fp = ("C06.transform.isolation", PRIMITIVE[kind], "side_effect:other_mesh_changed",
+                          "shared_state_other_than_vertex_storage")
+                else:
+                    det["shares_storage_with_target_vertex"] = others[0]
+                    if y == tgt:
+                        sub, icls, vk = blame_within(st, y, others[0], j)
+                    else:
+                        sub, icls, vk = blame_cross(st, ("m", tgt), ("m", y))
+                    fp = (sub, PRIMITIVE[kind], vk, icls)
             if fp not in done:
                 done.add(fp)
                 self.viol(*fp, det)
@@ -758,6 +806,13 @@ class Run:
                 done.add(fp)
                 self.viol(*fp, det)
         return True
+
+    @staticmethod
+    def _fn(kind):
+        import mouette as M
+        return {"translate": M.transform.translate, "rotate": M.transform.rotate, "scale": M.transform.scale,
+                "scale_xyz": M.transform.scale_xyz, "normalize": M.transform.normalize,
+                "to_origin": M.transform.translate_to_origin, "flatten": M.transform.flatten}[kind]
 
     # -- one event -------------------------------------------------------------------------------
     def apply(self, st, ev, check, resync=False):
@@ -813,9 +868,7 @@ class Run:
         rep = self.rep
         kind, i = ev[0], ev[1]
         X = st.live[i]
-        fn = {"translate": M.transform.translate, "rotate": M.transform.rotate, "scale": M.transform.scale,
-              "scale_xyz": M.transform.scale_xyz, "normalize": M.transform.normalize,
-              "to_origin": M.transform.translate_to_origin, "flatten": M.transform.flatten}[kind]
+        fn = self._fn(kind)
         before, _ = read_vertices(X.real)
         pre = [[vptr(v) for v in L.real.vertices] for L in st.live] if check else None
         a, kw, watch = self._real_args(ev)
